@@ -289,6 +289,17 @@ impl Consumer {
         let mut empty = true;
         let retry_partitions = &mut self.state.retry_partitions;
 
+        // ~ fail before touching any fetch state: a poll which fails
+        // must not advance the offsets of the partitions processed
+        // before the erroneous one (their messages would be skipped)
+        for resp in &resps {
+            for t in resp.topics() {
+                for p in t.partitions() {
+                    p.data()?;
+                }
+            }
+        }
+
         for resp in &resps {
             for t in resp.topics() {
                 let topic_ref = self
